@@ -2,6 +2,8 @@
 package c07
 
 import (
+	"github.com/jhalter/mobius/verifshim"
+
 	"bufio"
 	"bytes"
 	"encoding/json"
@@ -36,7 +38,7 @@ func init() {
 	simple = &core.Simple{
 		Id: "C07", Lvl: "exploration", Quick: 2100, Thorough: 80000, PerBatch: 350, Width: 175, Timeout: 2400,
 		RuleText: "each case builds a sandbox S/l1/l2/l3/l4/root with uniquely named canary files and directories at every level (including .info_root, .rsrc_root and root.incomplete next to the root, and canaries next to the accounts directory), then — as a client of the server-wide root or, in a third of the cases, of an account with its own file root next to it — sends one file-touching or account request (24 kinds incl. two-step account sequences on a hostile existing login, the actual transfer for downloads/uploads and folder-upload item headers on the transfer connection) whose name / path items / new name / destination / item header / login carries a hostile component ('..', '.', '/', empty, absolute, a/../../b, NUL, 255-byte and longer, high bytes, more '..' than the sandbox is deep, count/length prefixes that disagree with the data, names aiming at a canary); oracle: the recursive snapshot (names, types, sizes, hashes, link targets) of everything outside the root (outside Users/ for account requests) is unchanged, no link inside the root points outside, and no canary token appears in any reply or transfer byte. distinct = (request kind, hostile class, placement); non-trivial = every case",
-		Case: runCase,
+		Case:     runCase,
 		Extra: func(tier string, seed int64) []core.Batch {
 			n := 170
 			if tier == "thorough" {
@@ -119,9 +121,9 @@ func hostilePaths(r *core.Rand, canaryName string) []hostile {
 }
 
 type sandbox struct {
-	srv     *fixture.Server
-	tokens  []string
-	canary  string // name of the canary file one level above the root
+	srv       *fixture.Server
+	tokens    []string
+	canary    string // name of the canary file one level above the root
 	cfgCanary string // base name (without .yaml) of the canary file next to the accounts directory
 	zoneRoot  string // the client's file root (its account's own root, or the server-wide one)
 }
@@ -194,6 +196,9 @@ func runCase(c *core.Case) {
 	// then that directory is "the client's file root" and the server-wide root is outside of it
 	zoneRoot := srv.FileRoot
 	account := "admin"
+	// the configured root string is not always in clean form: operators write "/srv/files/" as often as "/srv/files"
+	rootSuffix := []string{"", "/", "", "/.", "", "//"}[(c.Index/7)%6]
+	srv.S.Config.FileRoot = srv.FileRoot + rootSuffix
 	if c.Index%3 == 1 {
 		own := filepath.Join(filepath.Dir(srv.FileRoot), "acctroot")
 		fixture.WriteFile(own+"/file.txt", "inside-file")
@@ -203,7 +208,7 @@ func runCase(c *core.Case) {
 		os.MkdirAll(own+"/Docs", 0755)
 		if acc := srv.S.AccountManager.Get("admin"); acc != nil {
 			scoped := *acc
-			scoped.Login, scoped.Name, scoped.FileRoot = "scoped", "Scoped", own
+			scoped.Login, scoped.Name, scoped.FileRoot = "scoped", "Scoped", own+rootSuffix
 			if err := srv.S.AccountManager.Create(scoped); err == nil {
 				account, zoneRoot = "scoped", own
 			}
@@ -392,6 +397,12 @@ func runCase(c *core.Case) {
 	cl.Conn.WaitIdle(refclient.Watchdog)
 	srv.Quiesce(refclient.Watchdog)
 	time.Sleep(time.Millisecond)
+	if accountZone {
+		// a restart reads every account file back (and may repair or migrate files): that, too, must stay inside the
+		// accounts directory, whatever logins the files now carry
+		verifshim.NewYAMLAccountManager(filepath.Join(srv.ConfigDir, "Users"))
+		c.Count("restarts_after_account_requests", 1)
+	}
 	if auditMark != nil {
 		auditMark("E", sb, accountZone)
 	}
